@@ -1148,7 +1148,7 @@ def padleft_fn(
     else:
         cnt = int(cntstr)
     if cnt - len(v) > len(pad) and len(pad) > 0:
-        pad = pad * ((cnt - len(v)) // len(pad))
+        pad = pad * ((cnt - len(v)) // len(pad) + 1)
     if len(v) < cnt:
         v = pad[: cnt - len(v)] + v
     return v
@@ -1173,7 +1173,7 @@ def padright_fn(
     else:
         cnt = int(cntstr)
     if cnt - len(v) > len(pad) and len(pad) > 0:
-        pad = pad * ((cnt - len(v)) // len(pad))
+        pad = pad * ((cnt - len(v)) // len(pad) + 1)
     if len(v) < cnt:
         v = v + pad[: cnt - len(v)]
     return v
